@@ -59,8 +59,8 @@ struct Ledger : public xercesc::MemoryManager {
             ++intransform;
             if (census) {
                 std::vector<std::string> names;
-                stackNames(__builtin_return_address(0), names, 6);
-                sites.insert(joinNames(names, 6));
+                stackNames(__builtin_return_address(0), names, 10);
+                sites.insert(joinNames(names, 10));
             }
         }
         return p;
